@@ -314,15 +314,30 @@ pub fn expected_refusals(src: &str, cfg: &Config) -> Vec<String> {
     if groups.iter().enumerate().any(|(i, g)| *g != i as u32) {
         v.push("Err(NonConsecutiveBindGroups)".to_string());
     }
+    // 64-bit integers have no Rust mapping as *member or variable types* (constants and locals of those types are fine):
+    // the types reachable from struct members and module-scope variables
+    let mut data_types: Vec<naga::Handle<naga::Type>> = module.global_variables.iter().map(|(_, g)| g.ty).collect();
     for (_, t) in module.types.iter() {
-        match &t.inner {
-            naga::TypeInner::Array { size: naga::ArraySize::Dynamic, .. } => {
-                if !cfg.encase || cfg.bytemuck_host || cfg.bytemuck_vertex {
-                    v.push("Panic(Runtime-sized array fields are".to_string());
-                }
-            }
+        if let naga::TypeInner::Struct { members, .. } = &t.inner {
+            data_types.extend(members.iter().map(|m| m.ty));
+        }
+    }
+    let mut seen = BTreeSet::new();
+    while let Some(h) = data_types.pop() {
+        if !seen.insert(h.index()) {
+            continue;
+        }
+        match &module.types[h].inner {
+            naga::TypeInner::Array { base, .. } | naga::TypeInner::BindingArray { base, .. } => data_types.push(*base),
             naga::TypeInner::Scalar(sc) | naga::TypeInner::Vector { scalar: sc, .. } | naga::TypeInner::Atomic(sc) if sc.width == 8 && matches!(sc.kind, naga::ScalarKind::Sint | naga::ScalarKind::Uint) => v.push("Panic(not yet implemented".to_string()),
             _ => {}
+        }
+    }
+    for (_, t) in module.types.iter() {
+        if let naga::TypeInner::Array { size: naga::ArraySize::Dynamic, .. } = &t.inner {
+            if !cfg.encase || cfg.bytemuck_host || cfg.bytemuck_vertex {
+                v.push("Panic(Runtime-sized array fields are".to_string());
+            }
         }
     }
     v.sort();
